@@ -569,6 +569,27 @@ func challengeAll() {
 			challengeCase(c, fmt.Sprintf("%s|big%d", chalTag(c), bi))
 		}
 	}
+	// lists of very many pairs (distinct ids beyond the assigned ones; a server may send any): 255,
+	// 256, 257, 300, 1000 and as many empty pairs as a 16-bit descriptor holds
+	for _, np := range []int{255, 256, 257, 300, 1000, 4000, 16382} {
+		for rep := 0; rep < 2; rep++ {
+			c := genChallenge(rng, rep == 0, rep == 1, true, true, 5, 0, 0)
+			c.pairs = nil
+			for k := 0; k < np; k++ {
+				vl := 0
+				if np <= 1000 {
+					vl = []int{0, 2, 8, 1}[k%4]
+				}
+				c.pairs = append(c.pairs, avPair{uint16(0x100 + k*3), gen.Bytes(rng, vl)})
+			}
+			c.spec.TargetInfo = encodeAV(c.pairs)
+			if len(c.spec.TargetInfo) > 65535 {
+				r.Inconclusive(fmt.Sprintf("target info of %d pairs does not fit a 16-bit descriptor", np))
+				continue
+			}
+			challengeCase(c, fmt.Sprintf("%s|pairs%d", chalTag(c), np))
+		}
+	}
 	n := r.Pick(60000, 1000000)
 	for t := 0; t < n; t++ {
 		uni := rng.IntN(3) != 0
@@ -979,10 +1000,18 @@ func endToEndCase(c chalCase, user, pw, domain, ws string, ownWriter bool, state
 		}
 	}
 	uni := c.spec.Flags&fUnicode != 0
-	ctx := spnego.NewAuthContext(spnego.AuthTypeNTLM, domain, user, pw, ws, uni)
+	ctxUni := uni
+	if (len(raw)+len(pw))%5 == 0 && isASCII7(user) && isASCII7(domain) && isASCII7(ws) {
+		// the context was created for the other character set than the server then chose: the
+		// AUTHENTICATE follows the CHALLENGE (MS-NLMP 3.1.5.1.2), and the challenge kept in the context
+		// is the one received
+		ctxUni = !uni
+		cs["context_unicode"] = ctxUni
+	}
+	ctx := spnego.NewAuthContext(spnego.AuthTypeNTLM, domain, user, pw, ws, ctxUni)
 	if (len(raw)+len(user)+state)%2 == 1 {
 		// the context written out by the caller, field by field, instead of through the constructor
-		ctx = &spnego.AuthContext{Type: spnego.AuthTypeNTLM, Domain: domain, Username: user, Password: pw, Workstation: ws, UseUnicode: uni}
+		ctx = &spnego.AuthContext{Type: spnego.AuthTypeNTLM, Domain: domain, Username: user, Password: pw, Workstation: ws, UseUnicode: ctxUni}
 		cs["context"] = "struct literal"
 	}
 	// first leg: the NEGOTIATE token of the same context
@@ -998,7 +1027,7 @@ func endToEndCase(c chalCase, user, pw, domain, ws string, ownWriter bool, state
 		r.Violation("spnego.CreateNegotiateToken:der:"+derr.Error(), hexShort(neg), cs)
 	} else {
 		hold("spnego.CreateNegotiateToken", neg, cs)
-		checkNegotiateBytes("spnego.CreateNegotiateToken", in.Elems[2], domain, ws, uni, cs)
+		checkNegotiateBytes("spnego.CreateNegotiateToken", in.Elems[2], domain, ws, ctxUni, cs)
 	}
 	var out []byte
 	p, v, st = mon.Guard(func() { out, err = ctx.ProcessChallengeToken(tokIn) })
